@@ -118,7 +118,54 @@ def post(g):
     for _ in range(rng.choice([1, 2, 3])):
         g.op_derive() if rng.random() < 0.6 else (g.op_update() if rng.random() < 0.5 else g.op_add_bundle_doc())
         for _ in range(rng.choice([1, 2, 3])):
-            rng.choice([g.op_ns, g.op_new_record, g.op_add_attrs, g.op_new_bundle, g.op_factory, g.op_add_type])()
+            rng.choice([g.op_ns, g.op_new_record, g.op_add_attrs, g.op_new_bundle, g.op_factory, g.op_add_type,
+                        lambda: rebind_default(g)])()
+
+
+def rebind_default(g):
+    """set_default_namespace with a URI of the caller's choice on any container — also one that already has a default
+    namespace (for this property a legal follow-up mutation: it must not reach any other document)"""
+    from harness.progs import DEFAULTS
+    g.emit(["SetDefault", g.pick_cref(), g.rng.choice(DEFAULTS + ["http://rebound.test/"])])
+
+
+def fixed_programs():
+    """a source whose records (document level and in a bundle) use a default namespace, each deriving operation whose
+    result re-creates those records, then a default namespace of another URI set on the result, on the source, on the
+    source's bundle — every other document must stay as it was"""
+    D1, D2 = "http://default.test/", "http://rebound.test/"
+    out = []
+    derivs = [("Unified", lambda: [["Unified", "0"]]), ("Flattened", lambda: [["Flattened", "0"]]),
+              ("DocFromRecords", lambda: [["DocFromRecords", ["d", "0"]]]),
+              ("DocFromRecords-bundle", lambda: [["DocFromRecords", ["b", "0", "0"]]]),
+              ("Update", lambda: [["NewDoc"], ["Update", ["d", "1"], ["d", "0"]]]),
+              ("AddBundleDoc", lambda: [["NewDoc"], ["AddNs", ["d", "1"], "ex", "http://example.org/"],
+                                        ["AddBundleDoc", "1", "0", ["S", "ex:attached"], ["ex"]]]),
+              ("AddRecord", lambda: [["NewDoc"], ["AddRecord", ["d", "1"], ["r", ["d", "0"], "0"]]])]
+    for src_explicit in (True, False):
+        for name, mk in derivs:
+            for first in ("result", "source", "source-bundle"):
+                p = [["NewDoc"]]
+                if src_explicit:
+                    p.append(["SetDefault", ["d", "0"], D1])
+                p += [["AddNs", ["d", "0"], "ex", "http://example.org/"],
+                      ["NewRecord", ["d", "0"], "Entity", ["Q", "", D1, "e1"], [[["Q", "", D1, "k"], ["qn", "", D1, "v"]]]],
+                      ["NewBundle", "0", ["S", "ex:b"]],
+                      ["NewRecord", ["b", "0", "0"], "Entity", ["Q", "", D1, "e2"], []]]
+                if name == "AddBundleDoc":
+                    p = [o for o in p if o[0] != "NewBundle" and not (o[0] == "NewRecord" and o[1][0] == "b")]
+                if name == "DocFromRecords-bundle" or name.startswith("DocFromRecords") and False:
+                    pass
+                p += mk()
+                targets = {"result": ["d", "1"], "source": ["d", "0"], "source-bundle": ["b", "0", "0"]}
+                order = [first] + [t for t in ("result", "source", "source-bundle") if t != first]
+                for t in order:
+                    if t == "source-bundle" and name == "AddBundleDoc":
+                        continue
+                    p.append(["SetDefault", targets[t], D2 if t == first else D2 + t + "/"])
+                    p.append(["NewRecord", targets[t], "Entity", ["S", "late"], []])
+                out.append(p)
+    return out
 
 
 def nontrivial(ops):
@@ -132,11 +179,12 @@ def run(tier, seed, log, model_runs=True, enlarged=False):
                          ops_range_quick=(6, 20), ops_range_thorough=(8, 40),
                          rule_text="API programs: a random phase, then rounds of one deriving operation (unified, flattened, "
                                    "document from records, update, add_bundle of a document, add_record) followed by mutators on "
-                                   "arbitrary documents (namespaces, default namespace, records, attributes, bundles); after every "
+                                   "arbitrary documents (namespaces, default namespace — also re-bound to another URI —, records, attributes, bundles), plus 42 fixed programs (default-namespace records, each deriving operation, then another default namespace on result, source and source bundle); after every "
                                    "call the strict content, record order, registered namespaces and default namespace of every "
                                    "document other than the call's target must be unchanged, derived documents must consist "
                                    "of new objects, and no two record objects may share their attribute dictionary or a value set; at the end sampled records are copied with record.copy() and the copy is changed under existing and "
                                    "new attribute names; non-trivial = a deriving call followed by a mutator",
+                         extra_cases=fixed_programs(),
                          theorem_note="C12_frame over Interp.step")
 
 
